@@ -4,7 +4,7 @@
    (by h3's header mapping and writer, and by these two stand-ins), so the premises are jointly satisfiable. *)
 From H3V Require Import Base.Bytes Base.BytesLemmas Spec.RFC9000 Model.Varint Proofs.VarintProofs Proofs.FrameEncProofs
   Spec.WellFormed Proofs.HeadersProofs Model.EndToEnd Spec.EndToEndSpec Spec.FrameVocab Spec.Frames Spec.EndToEndStream
-  Model.EndToEndRef.
+  Model.EndToEndRef Proofs.EndToEndMerge.
 From Coq Require Import ZifyBool ZifyNat ZifyN.
 Ltac Zify.zify_post_hook ::= Z.div_mod_to_equations.
 
@@ -45,8 +45,7 @@ Proof.
     { apply wf_bytes_app; split; [exact Hn|]. apply wf_bytes_app; split; assumption. }
     destruct (vi_decode_encoded _ a (n ++ a2 ++ v ++ c) Ea W1) as [Wa D1].
     split; [apply wf_bytes_app; split; assumption|]. split.
-    + cbn [section_size fold_right fst snd]. rewrite !len_app.
-      change (fold_right _ 0 fs) with (section_size fs). lia.
+    + cbn [section_size]. unfold field_size. cbn [fst snd]. rewrite !len_app. lia.
     + intros fuel Hfuel. destruct fuel as [|fuel].
       { exfalso. rewrite !app_length in Hfuel. unfold len in Hla. lia. }
       destruct (nonempty_len a ltac:(lia)) as (b0 & t0 & Eab). subst a.
@@ -72,7 +71,7 @@ Proof.
   - split.
     + constructor; [unfold wf_byte; lia|]. constructor; [unfold wf_byte; lia|exact Hc].
     + unfold section_fits in Hfit. unfold len in *. cbn [length]. change (2 ^ 62) with 4611686018427387904.
-      change (2 ^ 60) with 1152921504606846976 in Hfit. lia.
+      change (2 ^ 26) with 67108864 in Hfit. lia.
   - cbn [ref_decode_section]. apply Hd. lia.
 Qed.
 
@@ -110,32 +109,11 @@ Proof.
         apply (IH s items s'); try assumption. rewrite Ef. exact Hok.
 Qed.
 
-(* the RFC reading is already in merged form *)
-Lemma merge_flush_cons acc (x : ritem) l : (forall p, x <> RData p) ->
-  merge_items [] (flush_items acc ++ x :: l) = flush_items acc ++ x :: merge_items [] l.
-Proof.
-  intros Hx. destruct acc as [|a acc']; cbn [flush_items app merge_items].
-  - destruct x; try reflexivity. exfalso. eapply Hx. reflexivity.
-  - destruct x; try reflexivity. exfalso. eapply Hx. reflexivity.
-Qed.
-
-Lemma read_tokens_merged toks tl : forall ph acc,
-  merge_items [] (read_tokens ph acc toks tl) = read_tokens ph acc toks tl.
-Proof.
-  induction toks as [|t toks IH]; intros ph acc.
-  - destruct ph; destruct tl; cbn [read_tokens]; try reflexivity;
-      try (rewrite merge_flush_cons by (intros; discriminate); reflexivity).
-  - destruct ph; destruct t as [f|x]; try destruct f; cbn [read_tokens]; try reflexivity;
-      try (rewrite merge_flush_cons by (intros; discriminate); try rewrite IH; reflexivity);
-      try apply IH.
-    cbn [merge_items flush_items app]. rewrite IH. reflexivity.
-Qed.
-
 Theorem sf_reader_law h items s :
   hist_ok h = true -> sf_run h sf_init = (items, s) -> sf_done s = true ->
   merge_items [] items = rfc_stream_reading (hist_flat h).
 Proof.
   intros Hok Hrun Hd. rewrite (sf_run_reads h sf_init items s Hok eq_refl Hrun Hd). cbn [sf_init sf_buf app].
-  unfold rfc_stream_reading. destruct (frame_outcome no_settings_check (hist_flat h) Finished) as [toks tl].
+  unfold rfc_stream_reading, rfc_stream_reading_with. destruct (frame_outcome no_settings_check (hist_flat h) Finished) as [toks tl].
   apply read_tokens_merged.
 Qed.
